@@ -14,6 +14,7 @@ CONSTANTS MaxRefs,      \* bound on the number of cells
           OpsOn,        \* set of operation names explored
           ArgScalars,   \* scalar values used as arguments
           ArgLits,      \* literal values (V("lit", i)) used as arguments
+          ArgRefs,      \* TRUE: live containers are used as argument values (nesting / aliasing)
           IdxSlack,     \* how far outside 0..n index arguments range
           TFKeys, TFIdx, TFLen,   \* tree-form write paths: keys 1..TFKeys, indices 0..TFIdx, length <= TFLen
           TFReadLen,    \* tree-form read table: paths up to this length (0 = no table)
@@ -30,7 +31,7 @@ ListsOf(h)    == {r \in DOMAIN h : h[r].t = "L"}
 ObjsOf(h)     == {r \in DOMAIN h : h[r].t = "O"}
 GoOf(h)       == {r \in DOMAIN h : h[r].t \in {"GS", "GM"}}
 
-RefVals(h) == {Ref(x) : x \in Containers(h)}
+RefVals(h) == IF ArgRefs THEN {Ref(x) : x \in Containers(h)} ELSE {}
 SV(h) == ArgScalars \cup RefVals(h) \cup ArgLits
 K(k) == V("str", k)
 OneScalar == CHOOSE v \in ArgScalars : TRUE
@@ -100,7 +101,8 @@ GoCands(h, g) ==
      (IF "GoSet" \in OpsOn THEN
         (IF c.t = "GS" THEN {Op("GoSet", g, i, 0, v, Z, Z) : i \in 0..(Len(c.e) - 1), v \in ArgScalars \cup RefVals(h)}
                        ELSE {Op("GoSet", g, k, 0, v, Z, Z) : k \in 1..NKeys, v \in ArgScalars \cup RefVals(h)}) ELSE {})
-  \cup (IF "GoAppend" \in OpsOn /\ c.t = "GS" THEN {Op("GoAppend", g, 0, 0, v, Z, Z) : v \in ArgScalars} ELSE {})
+  \* append re-slices: only a slice that no other Go value holds (the holder would keep the old header)
+  \cup (IF "GoAppend" \in OpsOn /\ c.t = "GS" /\ g \notin UNION {CellRefs(h[x]) : x \in DOMAIN h} THEN {Op("GoAppend", g, 0, 0, v, Z, Z) : v \in ArgScalars} ELSE {})
   \cup (IF "GoDelete" \in OpsOn /\ c.t = "GM" THEN {Op("GoDelete", g, k, 0, None, Z, Z) : k \in 1..NKeys} ELSE {})
   \cup (IF "NewListFrom" \in OpsOn /\ c.t = "GS" THEN {O0("NewListFrom", g)} ELSE {})
   \cup (IF "NewObjectFrom" \in OpsOn /\ c.t = "GM" THEN {O0("NewObjectFrom", g)} ELSE {})
